@@ -168,6 +168,33 @@ fn real_main() -> i32 {
                 eprintln!("replay: cannot parse {}", args[2]);
                 return 2;
             };
+            if rp.class == "Crash" && std::env::var("VERIF_REPLAY_INNER").is_err() {
+                // the replay is expected to take the process down: run it in a child of its own
+                let st = std::process::Command::new(std::env::current_exe().unwrap())
+                    .args(["replay", &args[2]])
+                    .env("VERIF_REPLAY_INNER", "1")
+                    .stdout(std::process::Stdio::null())
+                    .stderr(std::process::Stdio::null())
+                    .status();
+                return match st.ok().map(|s| s.code()) {
+                    Some(None) => {
+                        println!("VIOLATION property={} replay={}", rp.property, args[2]);
+                        println!("  class=Crash");
+                        println!("  {}", rp.message);
+                        1
+                    }
+                    Some(Some(1)) => {
+                        println!("VIOLATION property={} replay={}", rp.property, args[2]);
+                        println!("  class=Crash (the run now ends with another violation instead of a signal)");
+                        1
+                    }
+                    Some(Some(0)) => {
+                        println!("replay of {} does not violate {} on the current tree", args[2], rp.property);
+                        0
+                    }
+                    _ => 2,
+                };
+            }
             let rt = match enginex::CRuntime::build("replay") {
                 Ok(r) => r,
                 Err(e) => {
